@@ -296,7 +296,7 @@ Definition bcast_core (c : core) (s : list nat) : core :=
          (zprod s) (c_isize c) (c_nsize c) (c_dsize c)
          (VArr (vkind (c_vals c)) (s ++ c_numer c ++ c_denom c)) (remask_shape (c_mask c) s)
          (c_default c) (c_units c) true (Some false) (off (c_mw c)).
-(* "broadcast" to (): the first element; scalar result for item () *)
+(* broadcast to (): the single element of a size-1 object; Python-scalar result for item () *)
 Definition collapse_core (c : core) : core :=
   let sc := is_nil (c_numer c ++ c_denom c) in
   mkcore (c_cls c) [] (c_numer c) (c_denom c) (c_item c) (c_nrank c) (c_drank c) (c_rank c)
@@ -309,8 +309,7 @@ Definition collapse_core (c : core) : core :=
 Definition broadcast_core (c : core) (s : list nat) : option core :=
   if leqb (c_shape c) s then Some c else
   if is_nil s then
-    (if is_nil (c_numer c ++ c_denom c) then (if (c_size c =? 0)%Z then None else Some (collapse_core c))
-     else (if (c_size c =? 1)%Z then Some (collapse_core c) else None))
+    (if (c_size c =? 1)%Z then Some (collapse_core c) else None)   (* exactly one element *)
   else match bshape (c_shape c) s with
        | Some r => if leqb r s then Some (bcast_core c s) else None
        | None => None
